@@ -15,7 +15,7 @@ RULE = ("cases: every tensor op and nn op/layer/loss of the catalogues x {float3
         "retained interior gradient; float32 result agrees with the float64 result to 1e-4*max(1,|.|max).  "
         "non-trivial: result is 0-d, or operands broadcast / have different shapes, or g.dtype != result.dtype, "
         "or a Python-scalar operand, or the retained-interior form; distinct by hash of the case"
-        " Also: mixed operand dtypes for the gradient rule, backward re-rooted on leaves, BatchNorm train->eval histories (buffer dtypes), tensors of 4,000-70,000 elements; histories on 0-d..2-d leaves / nn.Parameters of both dtypes (direct backward with either upstream dtype, mixed-dtype graphs, zero_(), Module.zero_grad(), Optimizer.zero_grad()) with .grad dtype and shape checked after every command.")
+        " Also: mixed operand dtypes for the gradient rule, backward re-rooted on leaves, BatchNorm train->eval histories (buffer dtypes), tensors of 4,000-70,000 elements; histories on 0-d..2-d leaves / nn.Parameters of both dtypes (direct backward with either upstream dtype, mixed-dtype graphs, zero_(), Module.zero_grad(), Optimizer.zero_grad()) with .grad dtype and shape checked after every command; tensors of 2^20 - 2^21 elements.")
 ASSUMPTIONS = ["operands of one call share a dtype (mixed-dtype operands are not part of the statement)",
                "reference shapes come from the NumPy reference models of the catalogues"]
 
@@ -267,6 +267,15 @@ def big_cases(draw):
             "gother": draw(st.booleans())}
 
 
+@st.composite
+def huge_cases(draw):
+    """a million elements and more: where an implementation might switch algorithm or accumulator"""
+    return {"op": draw(st.sampled_from(["sum", "mean", "mean_dim", "max", "mul", "softmax", "log_softmax", "relu", "tanh", "mse_mean",
+                                        "reshape_sum", "flatten_mean", "bce_logits_mean", "exp", "sqrt"])),
+            "n": draw(st.sampled_from([16384, 16400, 32768, 33000])), "m": draw(st.sampled_from([64, 66])),
+            "dtype": draw(st.sampled_from(["float32", "float32", "float64"])), "gother": draw(st.booleans())}
+
+
 def check_big(c, rec):
     dt = np.dtype(c["dtype"])
     other = np.dtype(np.float32 if dt == np.float64 else np.float64)
@@ -298,5 +307,6 @@ def subchecks():
                              quick=150 if op.name in heavy else 250, thorough=2000, shards_quick=1, shards_thorough=2))
     subs.append(SubCheck("bn_history", check_bn_hist, bn_hist_cases, quick=300, thorough=3000))
     subs.append(SubCheck("leaf_history", check_leaf_hist, leaf_hist_cases, quick=500, thorough=6000, shards_quick=2, shards_thorough=4))
+    subs.append(SubCheck("huge_tensors", check_big, huge_cases, quick=3, thorough=12, shards_quick=8, shards_thorough=16))
     subs.append(SubCheck("large_tensors", check_big, big_cases, quick=120, thorough=1500, shards_quick=2, shards_thorough=4))
     return subs
